@@ -460,7 +460,7 @@ func (e *env) writeC20(prog c20prog, cfgs []c20cfg, results []c20res, _ interfac
 			k := slotOfReq(r)
 			if k < 0 {
 				if res.Errs[i] || res.Touched[i] {
-					e.m.fail(oracleFailure{What: "a request with no format returned an error or modified its file", Input: cfg})
+					e.m.fail(oracleFailure{What: "a request whose format has no 'if has<Tool>() { return <run>.Run() }' branch in FormatFile, as read from /repo's source (the no-format request, or a branch rewritten so that its result is not returned), returned an error or modified its file", Input: cfg})
 				}
 				continue
 			}
